@@ -375,6 +375,7 @@ pub fn run(args: &Args) {
     let mut rng = Rng::new(args.seed);
     corpus(&mut out);
     migration_probe(&mut out);
+    distribution_asset_change_probe(&mut out);
     for _ in 0..args.n { gen_history(&mut out, &mut rng); }
     out.finish();
 }
@@ -399,4 +400,39 @@ fn migration_probe(out: &mut Out) {
     // at the current block, and with epoch creation several days overdue
     crate::migr::probe_distributor(out, &dump, b.time, b.height);
     crate::migr::probe_distributor(out, &dump, b.time.plus_nanos(5 * d + 17), b.height + 80_000);
+}
+
+/// The owner changes the distribution asset while an epoch inside the grace window still holds unclaimed fees of the previous asset.
+/// When that epoch leaves the window its remainder is rolled into the epoch created then - in whatever asset it is - so that at all
+/// times the distributor's balance of an asset equals the sum of what its epochs still hold of it. (Monitor only: the distributor
+/// machine has one distribution asset.)
+fn distribution_asset_change_probe(out: &mut Out) {
+    use cw_multi_test::Executor;
+    let (t0, d) = (GENESIS_DEFAULT, DAY_NS);
+    for grace in [1u64, 2] {
+        let mut x = Exec::new(grace, DEC_ONE);
+        let mut scratch = Out::new(&format!("{}/scratch_dist", out.dir));
+        x.exec(&mut scratch, t0, &Ev::Bond { who: 0, denom: 0, amount: 1_000 });
+        x.exec(&mut scratch, t0, &Ev::NewEpoch { sender: 1, fee: 10_000, collector_ok: true });
+        let owner = Addr::unchecked(OWNER);
+        let dist = x.w.distributor.clone();
+        let r = x.w.app.execute_contract(owner, dist.clone(), &fd::ExecuteMsg::UpdateConfig { owner: None, bonding_contract_addr: None, fee_collector_addr: None,
+            grace_period: None, distribution_asset: Some(native("uusdc")), epoch_config: None }, &[]);
+        if r.is_err() { out.count("dist_asset_change:update_rejected"); continue; }
+        let replay = json!({"kind": "distributor_distribution_asset_change", "grace_period": grace,
+            "script": "bond; NewEpoch with 10000 uwhale; UpdateConfig{distribution_asset: uusdc}; NewEpoch every day until the first epoch has left the grace window"});
+        for k in 1..=(grace + 2) {
+            x.w.set_time(t0 + k * d);
+            let r = x.w.new_epoch(U[1]);
+            out.monitor_evals += 1;
+            if r.is_err() { out.count("dist_asset_change:new_epoch_rejected"); continue; }
+            out.count("dist_asset_change:new_epoch_created");
+            let cur = x.w.q_current_epoch().id.u64();
+            let held: u128 = (1..=cur).map(|id| asset_amount(&x.w.q_epoch(id).available, DIST)).sum();
+            let bal = x.w.bal(dist.as_str(), DIST);
+            if held != bal {
+                out.monitor_fail("C09", &format!("after epoch {} was created the distributor holds {} {} but its epochs account for {}", cur, bal, DIST, held), replay.clone());
+            }
+        }
+    }
 }
